@@ -333,7 +333,16 @@ func genC04(t *rapid.T) c04Case {
 	}
 	maxN := (uint64(1)<<62 - 1) / p
 	var n uint64
-	switch rapid.IntRange(0, 3).Draw(t, "stepKind") {
+	switch rapid.IntRange(0, 4).Draw(t, "stepKind") {
+	case 4:
+		// the window straddles a step number where a byte of the 8-byte counter message carries: m * 2^(8k) +- a few
+		// (a counter advanced in place, or assembled from parts, goes wrong exactly there)
+		k := uint(rapid.SampledFrom([]int{1, 2, 3, 4, 5, 6, 7, 7, 7}).Draw(t, "carryByte")) * 8
+		m := rapid.Uint64Range(1, maxU(1, minU(255, maxN>>k))).Draw(t, "carryM")
+		n = m<<k + uint64(int64(rapid.IntRange(-int(dom)-1, int(dom)+1).Draw(t, "carryDelta")))
+		if n < dom || n > maxN {
+			n = dom + 1
+		}
 	case 0:
 		n = dom + uint64(rapid.IntRange(0, 5).Draw(t, "nLow"))
 	case 1:
